@@ -27,13 +27,11 @@ structure PhaseWF (T : PhaseTables) (p : PhaseRec) : Prop where
   abc : arrOK p.abcABG
   baserot : arrOK p.baserot
   atoms : ∀ a ∈ p.atoms, AtomWF a
-  /-- `atoms/10` sorts before `atoms/2` -/
-  natoms : p.atoms.length ≤ 10
   /-- the point-group name is ASCII, is not the marker "None" … -/
   pgName : ∀ g, p.pg = some g → asciiStr g ∧ g ≠ noneStr
-  /-- … and `Phase(space_group, point_group)` reproduces the pair (the name resolves to itself through the
-  alias table and agrees with the point group derived from the space group) -/
-  sym : mkPhase T p.sg p.pg = some (p.sg, p.pg)
+  /-- … and the `Phase` constructor reproduces the pair: with a space group the point group is the one derived
+  from it, without one the name resolves to itself through the alias table -/
+  sym : mkPhase T p.sg (if p.sg.isSome then none else p.pg) = some (p.sg, p.pg)
 
 /-- Explicit decidable well-formedness for the C13 round trip. Every conjunct is exercised against the
 implementation at a point it excludes (harness strata `known/…`). -/
@@ -152,14 +150,100 @@ theorem atom_round (a : AtomRec) (h : AtomWF a) : dict2atom (roundTree (atom2dic
   rw [str_stable _ h.el, str_stable _ h.label, arr_stable _ h.xyz, arr_stable _ h.u]
   rfl
 
-theorem atoms_round (atoms : List AtomRec) (h : ∀ a ∈ atoms, AtomWF a) (hl : atoms.length ≤ 10) :
-    (sortK (roundItems ((enumFrom 0 atoms).map fun (ia : Nat × AtomRec) => (Key.n ia.1, atom2dict ia.2)))).mapM
-      (fun kv => dict2atom kv.2) = some atoms := by
-  rw [roundItems_map (enumFrom 0 atoms) (fun ia => Key.n ia.1) (fun ia => atom2dict ia.2),
-    numbered_sorted (fun a => roundTree (atom2dict a)) atoms hl]
+/-! ### atoms are restored in numeric order -/
+
+theorem insertByInt_eq (e : Int × PyTree) (l : List (Int × PyTree)) :
+    insertByInt e l = List.orderedInsert (fun a b : Int × PyTree => a.1 ≤ b.1) e l := by
+  induction l with
+  | nil => rfl
+  | cons f r ih => simp [insertByInt, List.orderedInsert, ih]
+
+theorem sortByInt_eq (l : List (Int × PyTree)) :
+    sortByInt l = List.insertionSort (fun a b : Int × PyTree => a.1 ≤ b.1) l := by
+  induction l with
+  | nil => rfl
+  | cons e r ih =>
+    have : sortByInt (e :: r) = insertByInt e (sortByInt r) := rfl
+    rw [this, ih, insertByInt_eq]; rfl
+
+instance : Std.Total (fun a b : Int × PyTree => a.1 ≤ b.1) := ⟨fun a b => le_total a.1 b.1⟩
+instance : IsTrans (Int × PyTree) (fun a b : Int × PyTree => a.1 ≤ b.1) := ⟨fun _ _ _ h1 h2 => le_trans h1 h2⟩
+
+theorem eq_of_perm_of_map_eq' {α β} (f : α → β) (l : List α) :
+    ∀ (S : List α), S.Perm l → S.map f = l.map f → (l.map f).Nodup → S = l := by
+  induction l with
+  | nil => intro S hp _ _; exact hp.eq_nil
+  | cons a r ih =>
+    intro S hp hm hn
+    cases S with
+    | nil => exact absurd hp.symm.eq_nil (by simp)
+    | cons s S' =>
+      simp only [List.map_cons, List.cons.injEq] at hm
+      have hs : s ∈ a :: r := hp.subset (by simp)
+      have hsa : s = a := by
+        rcases List.mem_cons.1 hs with h | h
+        · exact h
+        · exfalso
+          have : f a ∈ r.map f := hm.1 ▸ List.mem_map_of_mem h
+          exact (List.nodup_cons.1 hn).1 this
+      subst hsa
+      rw [ih S' (List.Perm.cons_inv hp) hm.2 (List.nodup_cons.1 hn).2]
+
+/-- sorting by the integer key any permutation of a list with strictly increasing keys gives the list -/
+theorem sortByInt_perm (L R : List (Int × PyTree)) (hp : R.Perm L) (hs : (L.map (·.1)).Pairwise (· < ·)) :
+    sortByInt R = L := by
+  rw [sortByInt_eq]
+  have h1 : (List.insertionSort (fun a b : Int × PyTree => a.1 ≤ b.1) R).Perm L :=
+    (List.perm_insertionSort _ R).trans hp
+  have h3 : ((List.insertionSort (fun a b : Int × PyTree => a.1 ≤ b.1) R).map (·.1)).Pairwise (· ≤ ·) :=
+    List.pairwise_map.2 (List.pairwise_insertionSort _ R)
+  have h4 : (L.map (·.1)).Pairwise (· ≤ ·) := hs.imp (fun h => le_of_lt h)
+  have h5 := List.Perm.eq_of_pairwise' h3 h4 (h1.map _)
+  have hn : (L.map (·.1)).Nodup := hs.imp (fun h => ne_of_lt h)
+  exact eq_of_perm_of_map_eq' (fun e : Int × PyTree => e.1) L _ h1 h5 hn
+
+theorem enumFrom_keys_pairwise {α β} (f : Nat × α → β) (k : Nat) (l : List α) :
+    (((enumFrom k l).map fun ia => ((ia.1 : Int), f ia)).map (·.1)).Pairwise (· < ·) := by
+  induction l generalizing k with
+  | nil => simp [enumFrom]
+  | cons a r ih =>
+    simp only [enumFrom, List.map_cons]
+    refine List.Pairwise.cons ?_ (ih (k + 1))
+    intro b hb
+    simp only [List.map_map, List.mem_map, Function.comp] at hb
+    obtain ⟨ia, hia, rfl⟩ := hb
+    have := enumFrom_mem (k + 1) r ia hia
+    omega
+
+theorem atoms_round (atoms : List AtomRec) (h : ∀ a ∈ atoms, AtomWF a) :
+    atomsInOrder (sortK (roundItems ((enumFrom 0 atoms).map fun (ia : Nat × AtomRec) => (Key.n ia.1, atom2dict ia.2))))
+      = some atoms := by
+  rw [roundItems_map (enumFrom 0 atoms) (fun ia => Key.n ia.1) (fun ia => atom2dict ia.2)]
+  let N : List (Key × PyTree) := (enumFrom 0 atoms).map fun ia => (Key.n ia.1, roundTree (atom2dict ia.2))
+  let g : Key × PyTree → Int × PyTree := fun kv => match kv.1 with
+    | .n i => (i, kv.2)
+    | .s _ => (0, kv.2)
+  let L : List (Int × PyTree) := (enumFrom 0 atoms).map fun ia => ((ia.1 : Int), roundTree (atom2dict ia.2))
+  have hperm : (sortK N).Perm N := sortK_perm N
+  have hG : (sortK N).mapM (fun kv => (keyInt kv.1).map fun i => (i, kv.2)) = some ((sortK N).map g) := by
+    apply mapM_eq_some_map
+    intro kv hkv
+    obtain ⟨ia, _, rfl⟩ := List.mem_map.1 (hperm.subset hkv)
+    rfl
+  have hL : ((sortK N).map g).Perm L := by
+    refine (hperm.map g).trans ?_
+    have : N.map g = L := by
+      simp only [N, L, List.map_map]
+      exact List.map_congr_left (fun ia _ => rfl)
+    rw [this]
+  have hsort := sortByInt_perm L _ hL (enumFrom_keys_pairwise (fun ia => roundTree (atom2dict ia.2)) 0 atoms)
+  show atomsInOrder (sortK N) = some atoms
+  unfold atomsInOrder
+  rw [hG]
+  simp only [hsort]
   have := mapM_map_eq_some (enumFrom 0 atoms)
-    (fun ia : Nat × AtomRec => (Key.n ia.1, roundTree (atom2dict ia.2)))
-    (fun kv : Key × PyTree => dict2atom kv.2) (fun ia => ia.2)
+    (fun ia : Nat × AtomRec => ((ia.1 : Int), roundTree (atom2dict ia.2)))
+    (fun e : Int × PyTree => dict2atom e.2) (fun ia => ia.2)
     (fun ia hia => by
       have hm : ia.2 ∈ atoms := by
         have := List.mem_map_of_mem (f := (·.2)) hia
@@ -192,8 +276,8 @@ theorem phase_round (T : PhaseTables) (intDt : Nat) (p : PhaseRec) (h : PhaseWF 
   have hn2 : ([kS "lattice", kS "atoms"]).Nodup := by decide
   have hn2' : ([kS "abcABG", kS "baserot"]).Nodup := by decide
   obtain ⟨id, name, sg, pg, color, abc, br, atoms⟩ := p
-  have hat := atoms_round atoms h.atoms h.natoms
-  have hsym : mkPhase T sg pg = some (sg, pg) := h.sym
+  have hat := atoms_round atoms h.atoms
+  have hsym : mkPhase T sg (if sg.isSome then none else pg) = some (sg, pg) := h.sym
   have hpgs : normVal (.str (encodePg pg)) = .str (encodePg pg) :=
     str_stable _ (encodePg_ascii pg (fun g hg => (h.pgName g hg).1))
   have hdp : decodePg (encodePg pg) = pg := decode_encodePg pg (fun g hg => (h.pgName g hg).2)
